@@ -12,6 +12,7 @@ import datetime
 import gc
 import io
 
+import netCDF4
 import numpy as np
 from hypothesis import strategies as st
 
@@ -504,9 +505,10 @@ def check_op(case):
                 x.close()
             except Exception:
                 pass
-        keep = []
         f = operand = out = None
-        gc.collect()
+        if keep:
+            keep = []
+            gc.collect()
     return r
 
 
@@ -516,24 +518,47 @@ def _short(call):
 
 
 # ------------------------------------------------------------------ (c)
+def write_raw(fs, path, fmt):
+    """FileSpec -> netCDF file, without the library under test"""
+    m = S.model_of(fs)
+    ds = netCDF4.Dataset(path, 'w', format=fmt)
+    try:
+        for n, (l, u) in m.dims.items():
+            ds.createDimension(n, None if u else l)
+        for k, val in m.gattrs.items():
+            ds.setncattr(k, val)
+        for sv in fs['vars']:
+            mv = m.vars[sv['name']]
+            kw = {}
+            if mv.masked and sv.get('fill') is not None:
+                kw['fill_value'] = sv['fill']
+            v = ds.createVariable(mv.name, S.DT[sv['dtype']], mv.dims, **kw)
+            for k, val in mv.attrs.items():
+                v.setncattr(k, val)
+            if mv.dims:
+                v[...] = mv.data
+            else:
+                v.assignValue(mv.data)
+    finally:
+        ds.close()
+
+
 def check_hist(case):
     from PseudoNetCDF import pncopen
     r = Result()
     files = case['files']
     paths = []
     expected = []
-    # write the files with full handle discipline (R8b)
+    # the files are written and their reference content is read with plain
+    # netCDF4.Dataset objects (whose own finaliser is guarded), so that
+    # nothing the history is about happens before the first step
     for fs in files:
-        f0 = S.build_file(fs)
         path = libstate.scratch_path('.nc')
-        o = f0.save(path, format=O.disk_format(fs, fs['route']), verbose=0)
-        libstate.release(o)
-        del o
-        h = pncopen(path, format='netcdf')
-        expected.append(S.snapshot(h))
-        libstate.release(h)
-        del h
-        gc.collect()
+        write_raw(fs, path, O.disk_format(fs, fs['route']))
+        ds = netCDF4.Dataset(path)
+        expected.append(S.snapshot(ds))
+        ds.close()
+        del ds
         paths.append(path)
     r.label('hist', 'hist:files=%d' % len(files))
     for fs in files:
